@@ -79,10 +79,29 @@ fn endpoints() -> Vec<Ep> {
             uri: "/u/body/union",
             handler: "body_union",
             limit: 50 * 1024 * 1024,
-            bodies: vec![("{\"type\":\"text\",\"text\":\"t\"}", true), ("{\"text\":\"t\",\"type\":\"text\"}", true), ("{\"type\":\"text\",\"text\":\"t\"}]", false), ("{\"type\":\"text\",\"text\":5}", false), ("{\"type\":\"text\"}", false), ("{\"type\":\"other\",\"other\":[1]}", true), ("{\"type\":\"text\",\"text\":\"t\",\"more\":1}", false), ("{\"type\":\"payload\",\"payload\":{\"name\":\"n\",\"count\":1,\"ratio\":0.5}}", true), ("{\"type\":\"payload\",\"payload\":{\"name\":\"n\",\"count\":1,\"ratio\":0.5,\"deepBogus\":[]}}", false)],
+            bodies: union_orders().into_iter().chain(vec![("{\"type\":\"text\",\"text\":\"t\"}", true), ("{\"text\":\"t\",\"type\":\"text\"}", true), ("{\"type\":\"text\",\"text\":\"t\"}]", false), ("{\"type\":\"text\",\"text\":5}", false), ("{\"type\":\"text\"}", false), ("{\"type\":\"other\",\"other\":[1]}", true), ("{\"type\":\"text\",\"text\":\"t\",\"more\":1}", false), ("{\"type\":\"payload\",\"payload\":{\"name\":\"n\",\"count\":1,\"ratio\":0.5}}", true), ("{\"type\":\"payload\",\"payload\":{\"name\":\"n\",\"count\":1,\"ratio\":0.5,\"deepBogus\":[]}}", false)]).collect(),
             optional: false,
         },
     ]
+}
+
+/// union documents in both field orders over every (value key, `type` value) pair from two
+/// declared and two undeclared member names: a document of the union names ONE member, in
+/// both places (the value under an undeclared member is free).
+fn union_orders() -> Vec<(&'static str, bool)> {
+    let names = ["text", "numbers", "brandNew", "other"];
+    let mut out = Vec::new();
+    for key in names {
+        for ty in names {
+            let value = match key { "text" => "\"t\"", "numbers" => "[2]", _ => "[1]" };
+            let valid = key == ty;
+            for type_first in [true, false] {
+                let doc = if type_first { format!("{{\"type\":\"{}\",\"{}\":{}}}", ty, key, value) } else { format!("{{\"{}\":{},\"type\":\"{}\"}}", key, value, ty) };
+                out.push((&*Box::leak(doc.into_boxed_str()), valid));
+            }
+        }
+    }
+    out
 }
 
 pub fn run(args: &Args) -> Report {
